@@ -19,7 +19,7 @@ def P(rules, technique, explanation, not_decided):
 
 
 _ALL = {
-    'C01': P(['K1', 'K2', 'K3', 'K4', 'K5', 'F1', 'F2', 'F7', 'L7'],
+    'C01': P(['K1', 'K2', 'K3', 'K4', 'K5', 'K7', 'F1', 'F2', 'F7', 'L7'],
              'codec table agreement per storage mode + SQL column binding dataflow over enumerated paths',
              'Decides structural necessary conditions of the round trip: every mode written by Disk.store is dispatched '
              'by Disk.fetch and returns on all paths (K1); writer and reader recipes agree per mode - inline/file '
@@ -29,7 +29,7 @@ _ALL = {
              'value files are created exclusively and written completely (F1, F2, F7); only core touches storage (L7).',
              'Equality over the value domain itself (pickle/SQLite/JSON fidelity, size-threshold arithmetic) quantifies '
              'over runtime values and is not decided.'),
-    'C02': P(['K4', 'K5', 'K6', 'X3'],
+    'C02': P(['K4', 'K5', 'K6', 'K7', 'X3'],
              'key codec table agreement + (key, raw) parameter binding dataflow + keyset pagination check',
              'Decides that Disk.put/Disk.get invert each other per raw flag by exact type dispatch with the int64 guard '
              '(K4); every key lookup filters on key = ? AND raw = ? fed by the two results of one Disk.put of the '
@@ -37,7 +37,7 @@ _ALL = {
              'rowid cursor (X3).',
              'SQLite comparison/affinity semantics for 1 vs 1.0 and pickle canonicity of equal composite keys are '
              'runtime-value questions and are not decided.'),
-    'C03': P(['E2', 'L5', 'L8', 'X3', 'E4'],
+    'C03': P(['E2', 'L5', 'L8', 'L9', 'X3', 'E4'],
              'who-may-delete classification with guard dominance over enumerated paths',
              'Decides the clause "nothing is ever removed except by an explicit removal call, by expiry, or by size '
              'eviction at the limit": every DELETE on Cache is classified and its guard verified (E2); statistics are '
@@ -45,7 +45,7 @@ _ALL = {
              'counted (L5, L8); bulk removal/iteration paging is sound and bulk removals report what they removed '
              '(X3, E4).',
              'Equivalence with a reference dictionary over all call histories needs execution and is not decided.'),
-    'C04': P(['X1', 'X2', 'X3', ('E2', r'expired|lazy|expire'), 'E3'],
+    'C04': P(['X1', 'X2', 'X3', ('E2', r'expired|lazy|expire'), 'E3', ('L9', r'Cache\.(incr|add|touch)/')],
              'finite order abstraction {NULL,<,=,>} over every expiry comparison (SQL 3-valued + Python), sibling agreement',
              'Decides that every comparison of an expiry time with the clock - in SQL or Python - implements one '
              'liveness predicate (live iff NULL or > now) and every removal predicate selects only non-live items and '
@@ -53,7 +53,7 @@ _ALL = {
              'expire() pages soundly through any population (X3); lazy removal is expiry-guarded and budgeted (E2, E3).',
              'Clock trajectories x populations beyond the order abstraction (float rounding of now + expire) are not '
              'decided.'),
-    'C05': P(['T1', 'T2', 'T3', 'L1', 'L2', 'L5', 'L6', 'L7', 'F1', 'V1a', 'K5'],
+    'C05': P(['T1', 'T2', 'T3', 'L1', 'L2', 'L9', 'L5', 'L6', 'L7', 'F1', 'V1a', 'K5', 'K7'],
              'lock-discipline analysis over enumerated paths with transaction context',
              'Decides that the transaction manager takes the write lock at BEGIN, admits only the owner thread to nest '
              'and commits xor rolls back on every path (T1-T3); every row write executes inside a transaction block '
